@@ -312,10 +312,12 @@ def theorem_names(path):
 
 
 def parse_axioms(out):
+    """`#print axioms` output -> {theorem: [axioms]}.  Names are matched on one line only (a name may end in primes and a
+    `does not depend` line may directly precede a `depends on` line); the axiom list may wrap over several lines."""
     res = {}
-    for m in re.finditer(r"'(.+?)' depends on axioms: \[([^\]]*)\]", out, flags=re.S):
+    for m in re.finditer(r"^'([^\n]+?)' depends on axioms: \[([^\]]*)\]", out, flags=re.M):
         res[m.group(1)] = [a.strip() for a in m.group(2).replace("\n", " ").split(",") if a.strip()]
-    for m in re.finditer(r"'(.+?)' does not depend on any axioms", out):
+    for m in re.finditer(r"^'([^\n]+?)' does not depend on any axioms", out, flags=re.M):
         res[m.group(1)] = []
     return res
 
